@@ -215,7 +215,15 @@ def main(tier):
     configs = CONFIGS if tier == "thorough" else ["default", "rom-full", "rom-short", "card-absent", "card-8k", "card-readonly", "ram-overlay"]
     ops = ["byte", "word", "long", "bytes3"] if tier == "thorough" else ["byte", "long"]
     cases = [(c, o) for c in configs for o in ops]
-    results = common.pool_map(run_case, [(tier, c) for c in cases])
+    from engines.rsym import build
+
+    build.ensure_built()
+    build.image()
+    rs_ops = ["byte", "word", "long", "load-word", "load-long"]
+    rs_cases = [(c, o) for c in RS_CONFIGS for o in rs_ops]
+    rs_cases.sort(key=lambda c: 0 if c[1] == "long" else 1)
+    results = common.pool_map(run_rust_case, [(tier, c) for c in rs_cases]) + common.pool_map(run_case, [(tier, c) for c in cases])
+    cases = cases + [("rust:" + c, o) for c, o in rs_cases]
     tot = {k: 0 for k in ("paths", "obligations", "discharged", "unknown")}
     solver_time = 0.0
     samples, inconcl, cex = [], [], {}
@@ -249,13 +257,188 @@ def main(tier):
         "explanation": "Inductive step over arbitrary stores: z3 decides for all 32-bit addresses a, a2 and values that a load after a store returns the stored byte iff both addresses denote the same writable canonical cell and the previous value otherwise; internal and external cells never influence each other; read-only cells never change; multi-byte accesses are little-endian compositions.",
         "solver_time_s": round(solver_time, 2),
         "functions_encoded": ["pce500.memory.PCE500Memory.read_byte/write_byte/read_word/write_word/read_long/write_long/read_bytes/write_bytes/load_rom/add_ram/load_memory_card",
-                              "pce500.memory_bus.MemoryBus.read/write/_read_from_overlay/_write_to_overlay"],
+                              "pce500.memory_bus.MemoryBus.read/write/_read_from_overlay/_write_to_overlay",
+                              "Rust (LLVM IR): sc62015_core::memory::MemoryImage::new/load_internal/load/load_with_pc/store/store_with_pc/load_internal_value/store_internal_value/load_overlay_value/store_overlay_value/mirror_internal_ram_address/is_read_only_range/add_ram_overlay/add_rom_overlay/load_memory_card/set_memory_card_slot_present/set_internal_ram_mirror, MemoryOverlay::contains/read/write, pce500::configure_pce500_memory_map"],
         "bounds": {"history": "1 store + 1 load from an arbitrary store (induction over access histories)", "configurations": configs,
-                   "outside": LCD_KBD_NOTE + "; Rust MemoryImage is outside this check until the rsym engine carries it"},
+                   "rust_configurations": list(RS_CONFIGS),
+                   "outside": LCD_KBD_NOTE + "; Rust: python_ranges/requires_python routing, the IMR/ISR hook, write capture and access logs are bookkeeping outside the memory law; read_byte() (an overlay-blind debug accessor) is not checked"},
         "known_findings_hit": {k: len(v) for k, v in rep.known_hits.items()},
     }
-    assumptions = ["backing stores (external_memory, card data, ROM image, RAM overlay data) replaced by z3-array-backed byte containers of the same length",
+    assumptions = ["Rust: the 1 MiB external vector, card / ROM / RAM overlay buffers start with arbitrary contents (allocations of those sizes are symbolic arrays); internal memory is loaded from 256 symbolic bytes",
+                   "backing stores (external_memory, card data, ROM image, RAM overlay data) replaced by z3-array-backed byte containers of the same length",
                    "no CPU / tracer attached (cpu_pc None): the tracing side channels are disabled, their normal state"]
     common.write_evidence("C11", tier, "other", coverage, assumptions, wall, len(rep.violations))
     print(f"C11 {tier}: cases={len(cases)} paths={tot['paths']} obligations={tot['obligations']} discharged={tot['discharged']} cex={len(cex)} solver={solver_time:.1f}s wall={wall:.1f}s")
     return code
+
+
+# ------------------------------------------------------------------ Rust half (sc62015_core::memory::MemoryImage via rsym)
+
+RS_CONFIGS = {"default": 0, "pce500": 1, "pce500-mirror": 2, "pce500-card8k": 3, "pce500-card-absent": 4, "ram-overlay": 5, "rom-overlay": 6}
+RS_ALLOC = {0x100000: "ext", 8192: "card", 0x8000: "ram", 0x1000: "rom"}
+
+
+def rs_cell(config, a32):
+    """Canonical cell of the Rust MemoryImage -> (kind BV8, index BV32, writable Bool).
+    kinds: 1 internal, 2 external, 3 card data, 5 RAM overlay, 4 ROM overlay, 6 reads zero / ignores writes."""
+    a24 = a32 & 0xFFFFFF
+    internal = z3.And(z3.UGE(a24, bv(0x100000, 32)), z3.ULT(a24, bv(0x100100, 32)))
+    ioff = a24 - 0x100000
+    # external: 1 MiB wrap; with the RAM mirror on, 0x80000-0xBFFFF folds onto the 32 KiB internal RAM at 0xB8000
+    if config == "pce500-mirror":
+        in_mirror = z3.And(z3.UGE(a24, bv(0x80000, 32)), z3.ULE(a24, bv(0xBFFFF, 32)))
+        phys = z3.If(in_mirror, bv(0xB8000, 32) + (a24 & 0x7FFF), a24)
+    else:
+        phys = a24
+    e = phys & 0xFFFFF
+    kind, idx, writable = bv(2, 8), e, z3.BoolVal(True)
+    if config.startswith("pce500"):
+        # writability belongs to the cell, not to the alias it is reached through
+        ro = z3.Or(z3.ULE(e, bv(0x3FFFF, 32)), z3.And(z3.UGE(e, bv(0xC0000, 32)), z3.ULE(e, bv(0xFFFFF, 32))))
+        writable = z3.Not(ro)
+    def overlay(start, length, k, wr):
+        nonlocal kind, idx, writable
+        inside = z3.And(z3.UGE(a24, bv(start, 32)), z3.ULT(a24, bv(start + length, 32)))
+        kind = z3.If(inside, bv(k, 8), kind)
+        idx = z3.If(inside, a24 - start, idx)
+        writable = z3.If(inside, z3.BoolVal(wr), writable)
+    if config == "pce500-card8k":
+        overlay(0x40000, 8192, 3, True)
+    if config == "pce500-card-absent":
+        overlay(0x40000, 0x10000, 6, False)
+    if config == "ram-overlay":
+        overlay(0x80000, 0x8000, 5, True)
+    if config == "rom-overlay":
+        overlay(0xC0000, 0x1000, 4, False)
+    kind = z3.If(internal, bv(1, 8), kind)
+    idx = z3.If(internal, ioff, idx)
+    writable = z3.If(internal, z3.BoolVal(True), writable)
+    return kind, idx, writable
+
+
+def rs_initial(kind, idx, arrs):
+    v = z3.Select(arrs["ext"], z3.ZeroExt(32, idx))
+    v = z3.If(kind == 1, z3.Select(arrs["imem"], z3.Extract(7, 0, idx)), v)
+    for k, nm in ((3, "card"), (5, "ram"), (4, "rom")):
+        v = z3.If(kind == k, z3.Select(arrs[nm], z3.ZeroExt(32, idx)), v)
+    return z3.If(kind == 6, bv(0, 8), v)
+
+
+def run_rust_case(item):
+    tier, (config, op) = item
+    X.setup()
+    from engines.rsym import build, interp
+
+    img, _b = build.image()
+    key = f"rust:{config}:{op}"
+    res = {"key": key, "paths": 0, "obligations": 0, "discharged": 0, "unknown": 0, "cex": [], "solver_time": 0.0, "samples": [], "inconclusive": []}
+    mode, width = (0, {"byte": 1, "word": 2, "long": 3}[op]) if not op.startswith("load-") else (1, {"load-word": 2, "load-long": 3}[op])
+    A, A2, V = z3.BitVec("a", 32), z3.BitVec("a2", 32), z3.BitVec("v", 8 * width)
+    imem = z3.Array("imem", z3.BitVecSort(8), z3.BitVecSort(8))
+    arrs = {"imem": imem}
+    for nm in ("ext", "card", "ram", "rom"):
+        arrs[nm] = z3.Array(nm, z3.BitVecSort(64), z3.BitVecSort(8))
+    ins = {500: RS_CONFIGS[config], 501: A, 502: 8 * width, 503: z3.ZeroExt(32 - 8 * width, V) if width < 4 else V, 504: A2, 509: 0, 510: mode}
+    for i in range(256):
+        ins[2000 + i] = z3.ZeroExt(24, z3.Select(imem, bv(i, 8)))
+
+    def fn():
+        out = {}
+
+        def vout(m, i, v):
+            if i == 99:
+                where = {}
+                for a, c in m.mem.items():
+                    if type(c) is int or a < interp.HEAP_BASE or a >= m.heap:
+                        continue
+                    t = z3.simplify(c if type(c) is not tuple else z3.Extract(8 * c[1] + 7, 8 * c[1], c[0]))
+                    if t.decl().kind() == z3.Z3_OP_SELECT and str(t.arg(0)) == "imem" and z3.is_bv_value(t.arg(1)):
+                        where.setdefault(t.arg(1).as_long(), []).append(a)
+                if sorted(where) != list(range(256)) or any(len(x) != 1 for x in where.values()) or any(where[k][0] != where[0][0] + k for k in range(256)):
+                    raise RuntimeError("internal memory block not located as 256 contiguous live bytes")
+                m.adopt_array(where[0][0], 256, lambda off: z3.Select(imem, z3.Extract(7, 0, off)))
+            else:
+                out[i] = v
+
+        hooks = {"verif_in": lambda m, i: ins.get(i, 0), "verif_out": vout, "verif_load": lambda m, a: 0, "verif_store": lambda m, a, v: None}
+        m = interp.Machine(img, hooks)
+        m.STEP_LIMIT = 20_000_000
+        m.symbolic_alloc = dict(RS_ALLOC)
+        m.run(img.mod.functions["harness_mem"], [])
+        return out, m.steps
+
+    try:
+        paths, stats = explore(fn, max_paths=6000, deadline_s=900, timeout_ms=10000)
+    except core.PathLimit as e:
+        res["inconclusive"].append(str(e))
+        return res
+    res["paths"] = len(paths)
+    res["solver_time"] += stats.solver_time
+    T = interp.to_term
+    for p in paths:
+        if p.status != "ok":
+            if p.status == "inconclusive":
+                res["inconclusive"].append(p.detail[:100])
+            else:
+                res["cex"].append({"key": f"{key}|raises|{type(p.exc).__name__}", "summary": repr(p.exc)[:200], "payload": None})
+            continue
+        out, steps = p.value
+        checks = []
+        k2, i2, w2 = rs_cell(config, A2)
+        if mode == 0:
+            before, after = T(out[10], 32), T(out[20], 32)
+            init = z3.ZeroExt(24, rs_initial(k2, i2, arrs))
+            checks.append(("load returns the cell's contents", before != init))
+            want = before
+            for i in range(width):
+                ki, ii, wi = rs_cell(config, A + i)
+                hit = z3.And(ki == k2, ii == i2, wi)
+                want = z3.If(hit, z3.ZeroExt(24, z3.Extract(8 * i + 7, 8 * i, V)), want)
+            checks.append(("write-then-read (same cell reads the value, every other cell unchanged)", after != want))
+            k1, i1, w1 = rs_cell(config, A)
+            if op == "byte":
+                checks.append(("internal and external memory never alias", z3.And(z3.Or(z3.And(k1 == 1, k2 != 1), z3.And(k1 != 1, k2 == 1)), after != before)))
+                checks.append(("read-only cells never change", z3.And(z3.Not(w2), after != before)))
+                checks.append(("24-bit aliases read the same", z3.And((A & 0xFFFFFF) == (A2 & 0xFFFFFF), w1, after != z3.ZeroExt(24, z3.Extract(7, 0, V)))))
+            checks.append(("store is accepted", T(out[1], 32) != 1))
+        else:
+            comp = z3.Concat(*reversed([z3.Extract(7, 0, T(out[40 + i], 32)) for i in range(width)]))
+            checks.append(("multi-byte load is the little-endian composition of byte loads", z3.Extract(8 * width - 1, 0, T(out[30], 32)) != comp))
+            checks.append(("byte loads return a value", z3.Or(*[z3.UGT(T(out[40 + i], 32), 0xFF) for i in range(width)])))
+        # every obligation is decided separately for three classes of accesses, so that a known defect of one class never hides
+        # a violation in another: accesses whose bytes all lie in one region at consecutive cells ("uniform"), reached through
+        # addresses below 0x100100 ("lo") or through a higher 24-bit alias ("hi-alias"), and accesses that cross a region boundary
+        base = A if mode == 0 else A2
+        k0, i0, w0 = rs_cell(config, base)
+        strad = z3.BoolVal(False)
+        for i in range(1, width):
+            ki, ii, wi = rs_cell(config, base + i)
+            strad = z3.Or(strad, ki != k0, wi != w0, ii != i0 + i)
+        hi = z3.Or(z3.UGE(A & 0xFFFFFF, bv(0x100100, 32)) if mode == 0 else z3.BoolVal(False), z3.UGE(A2 & 0xFFFFFF, bv(0x100100, 32)))
+        classes = [("uniform,lo", z3.And(z3.Not(strad), z3.Not(hi))), ("uniform,hi-alias", z3.And(z3.Not(strad), hi))]
+        if width > 1:
+            classes.append(("straddle", strad))
+        for name, neg0 in checks:
+          for cname, cpred in classes:
+            neg = z3.And(neg0, cpred)
+            res["obligations"] += 1
+            r_, m_, dt = X.solve(p.constraints, [neg])
+            res["solver_time"] += dt
+            if r_ == "unsat":
+                res["discharged"] += 1
+                if len(res["samples"]) < 1:
+                    res["samples"].append({"case": key, "obligation": name, "class": cname, "rust_ir_steps": steps, "negated_post_head": neg.sexpr()[:140]})
+            elif r_ == "sat":
+                ev = lambda t: m_.eval(t, model_completion=True).as_long()  # noqa: E731
+                stores = {}
+                for nm, arr in arrs.items():
+                    d, ent = X.array_image(m_, arr)
+                    stores[nm] = {"default": d, "entries": {str(k_): b for k_, b in list(ent.items())[:64]}}
+                a_, a2_ = ev(A), ev(A2)
+                kk = lambda t: {1: "internal", 2: "external", 3: "card", 4: "rom-overlay", 5: "ram-overlay", 6: "card-void"}[ev(t)]  # noqa: E731
+                payload = {"property": "C11", "kind": "membus", "rust": True, "key": f"{key}|{name}", "config": config, "op": op, "a": a_, "a2": a2_, "v": ev(V), "stores": stores, "obligation": name}
+                cls = f"write {kk(rs_cell(config, A)[0])} read {kk(k2)}" if mode == 0 else f"read {kk(k2)}"
+                res["cex"].append({"key": f"{key}|{name.split(' (')[0]}|{cls}|{cname}", "summary": f"{key}: {name} a={a_:#x} a2={a2_:#x} v={ev(V):#x}", "payload": payload})
+            else:
+                res["unknown"] += 1
+    return res
